@@ -377,7 +377,7 @@ int main(int argc, char **argv)
       "single-byte deletion and hostile insertion of generated documents, plus token soup; distinct = hash of the document text; "
       "non-trivial = the document has at least one node");
   std::cout.setstate(std::ios_base::failbit);  // the reader prints a warning for partial files
-  long nRound = vh::tier(12000, 1000000), nSweep = vh::tier(250, 6000), nSoup = vh::tier(150, 5000);
+  long nRound = vh::tier(12000, 1000000), nSweep = vh::tier(250, 2000), nSoup = vh::tier(150, 5000);
   vh::forkedCases(
       nRound + nSweep + nSoup,
       [&](long k) {
